@@ -45,6 +45,7 @@ type Tool17 struct {
 	// Ctx: the tool honours its context: once released it gives a cancellation a moment to arrive and returns
 	// ctx.Err() if it does.  Nobody in these cases cancels the caller's context, so such a tool behaves like any other.
 	Ctx bool `json:"ctx,omitempty"`
+	EOF bool `json:"eof,omitempty"` // the tool's failure additionally wraps io.EOF
 }
 
 // Args17 is the argument type of tools built with components/tool/utils (kind "utils"): a pointer to it is
@@ -82,13 +83,21 @@ type CaseC17 struct {
 	Order    []int    `json:"order"`    // completion order (permutation keys)
 }
 
-type toolErr struct{ tool, id string }
+type toolErr struct {
+	tool, id string
+	eof      bool // the chain also ends in io.EOF (e.g. a dropped connection): a failure all the same
+}
 
 func (e *toolErr) Error() string { return "tool " + e.tool + " failed on call " + e.id }
 
 var errToolSentinel = errors.New("c17 tool failure")
 
-func (e *toolErr) Unwrap() error { return errToolSentinel }
+func (e *toolErr) Unwrap() []error {
+	if e.eof {
+		return []error{errToolSentinel, io.EOF}
+	}
+	return []error{errToolSentinel}
+}
 
 func toolOut(name, args string) string { return name + "[" + args + "]" }
 
@@ -132,7 +141,7 @@ func (b *baseTool17) run(ctx context.Context, args string) (string, error) {
 	}
 	switch b.d.Fault {
 	case "err":
-		return "", fmt.Errorf("wrapped: %w", &toolErr{b.d.Name, id})
+		return "", fmt.Errorf("wrapped: %w", &toolErr{b.d.Name, id, b.d.EOF})
 	case "panic":
 		panic("tool " + b.d.Name + " panics on call " + id)
 	}
@@ -146,7 +155,7 @@ func (b *baseTool17) stream(ctx context.Context, args string) (*schema.StreamRea
 	}
 	switch b.d.Fault {
 	case "err":
-		return nil, fmt.Errorf("wrapped: %w", &toolErr{b.d.Name, id})
+		return nil, fmt.Errorf("wrapped: %w", &toolErr{b.d.Name, id, b.d.EOF})
 	case "panic":
 		panic("tool " + b.d.Name + " panics on call " + id)
 	}
@@ -159,7 +168,7 @@ func (b *baseTool17) stream(ctx context.Context, args string) (*schema.StreamRea
 			}
 			sw.Send(p, nil)
 		}
-		sw.Send("", fmt.Errorf("wrapped: %w", &toolErr{b.d.Name, id}))
+		sw.Send("", fmt.Errorf("wrapped: %w", &toolErr{b.d.Name, id, b.d.EOF}))
 		sw.Close()
 		return sr, nil
 	}
@@ -198,7 +207,7 @@ func mkTool(d Tool17) tool.BaseTool {
 			}
 			switch d.Fault {
 			case "err":
-				return "", fmt.Errorf("wrapped: %w", &toolErr{d.Name, id})
+				return "", fmt.Errorf("wrapped: %w", &toolErr{d.Name, id, d.EOF})
 			case "panic":
 				panic("tool " + d.Name + " panics on call " + id)
 			}
@@ -219,6 +228,7 @@ func genC17(t *rapid.T) CaseC17 {
 		d := Tool17{Name: fmt.Sprintf("tool%d", i), Kind: []string{"inv", "str", "both", "utils"}[rapid.IntRange(0, 3).Draw(t, "kind")], Chunks: rapid.IntRange(1, 4).Draw(t, "chunks"), Empty: rapid.IntRange(0, 5).Draw(t, "empty") == 0, Ctx: rapid.IntRange(0, 2).Draw(t, "ctxAware") == 0}
 		if rapid.IntRange(0, 7).Draw(t, "fault") == 0 {
 			d.Fault = []string{"err", "err", "streamerr", "panic"}[rapid.IntRange(0, 3).Draw(t, "faultKind")]
+			d.EOF = rapid.IntRange(0, 2).Draw(t, "faultEOF") == 0
 		}
 		c.Tools = append(c.Tools, d)
 	}
